@@ -31,6 +31,7 @@ type LoadConfig struct {
 	Models     []string // model source files injected alongside
 	ExtraPkgs  []string // extra root patterns
 	LightDeps  bool     // load dependencies from export data (types only) except ExtraPkgs
+	StripImports []string // blank imports removed from the analysed copy of the package (drivers replaced by models)
 	Verbose    bool
 }
 
@@ -113,6 +114,34 @@ func Load(cfg LoadConfig) (*Loaded, error) {
 			return nil, err
 		}
 	}
+	// drop blank driver imports (the driver is replaced by a model); line numbers are preserved
+	if len(cfg.StripImports) > 0 {
+		ents, _ := os.ReadDir(cfg.PkgDir)
+		for _, en := range ents {
+			n := en.Name()
+			if !strings.HasSuffix(n, ".go") || strings.HasSuffix(n, "_test.go") {
+				continue
+			}
+			full := filepath.Join(cfg.PkgDir, n)
+			b, err := os.ReadFile(full)
+			if err != nil {
+				continue
+			}
+			changed := false
+			lines := strings.Split(string(b), "\n")
+			for i, ln := range lines {
+				for _, imp := range cfg.StripImports {
+					if strings.TrimSpace(ln) == `_ "`+imp+`"` {
+						lines[i] = ""
+						changed = true
+					}
+				}
+			}
+			if changed {
+				overlay[full] = []byte(strings.Join(lines, "\n"))
+			}
+		}
+	}
 	mode := packages.LoadAllSyntax
 	env := append(os.Environ(), "GOPROXY=off", "GOFLAGS=-mod=mod")
 	pcfg := &packages.Config{Mode: mode, Dir: cfg.PkgDir, Env: env, Overlay: overlay}
@@ -169,7 +198,7 @@ func Load(cfg LoadConfig) (*Loaded, error) {
 			return
 		}
 		for _, gf := range p.GoFiles {
-			if _, isOv := overlay[gf]; isOv {
+			if _, isOv := overlay[gf]; isOv && strings.HasPrefix(filepath.Base(gf), "zz_verif_") {
 				continue
 			}
 			b, err := os.ReadFile(gf)
